@@ -287,7 +287,7 @@ def prop_meta(case, rec):
         raise Violation('completion_differs', f'the trainer completes for some renderings only: {oks}', case)
     cls = ['enc_' + enc] + ['junk_' + (k or 'blank') for k, _ in case['junk']]
     if not oks['plain']:
-        rec.skip('trainer_did_not_complete')
+        trainer.skip_or_alarm(rec, results['plain'][0], case, case['entries'], case['alphabet_size'])
         return
     rec.case({'encoding': enc, 'entries': case['entries'][:4], 'junk': [k for k, _ in case['junk']]}, len(case['junk']) >= 1, cls, key=case)
     base = results['plain'][1]
@@ -376,6 +376,66 @@ def prop_meta_cli(case, rec):
                 raise Violation('ruleset_differs', f'trainer.py {mode} vs plain: {rel} differs: {other[rel][:120]!r} vs {base[rel][:120]!r}', case)
 
 
+RUSSIAN = ['пароль', 'привет', 'любовь', 'солнце', 'наташа', 'максим', 'марина', 'андрей', 'кристина', 'алексей', 'сергей', 'виктория', 'спартак', 'зенит',
+           'москва', 'россия', 'котенок', 'зайчик', 'принцесса', 'дракон', 'мастер', 'ангел', 'золото', 'счастье', 'здоровье', 'родина', 'победа', 'весна']
+
+
+def prop_autodetect(case, rec):
+    """trainer.py WITHOUT -e: the encoding is detected from the file. A list whose non-ASCII passwords are written as $HEX[] must be
+    detected - and so trained - like the plain list it spells (the detector decodes $HEX[] lines before it looks at the bytes)."""
+    import shutil
+    import subprocess
+    from .. import cli, session
+    if _CLI19[0] is None or not os.path.isdir(_CLI19[0]):
+        _CLI19[0] = session.copy_cli(session.make_root('c19cli'))
+    root = _CLI19[0]
+    enc = case['encoding']
+    shutil.rmtree(os.path.join(root, 'Rules'), ignore_errors=True)
+    os.makedirs(os.path.join(root, 'Rules'))
+    pws = [w + sfx for w, sfx in case['words']]
+    trees, det = {}, {}
+    for mode in ('plain', 'hex'):
+        lines = []
+        for p_ in pws:
+            raw = p_.encode(enc)
+            lines.append(raw if mode == 'plain' or p_.isascii() else b'$HEX[' + raw.hex().encode('ascii') + b']')
+        path = os.path.join(_dir(), f'auto_{mode}.txt')
+        with open(path, 'wb') as f:
+            f.write(b'\n'.join(lines) + b'\n')
+        try:
+            p = cli.run(root, 'trainer.py', ['-t', path, '-r', 'A ' + mode, '-c', '0.6', '-n', '3'], case.get('context') or cli.DEFAULT, timeout=600)
+        except subprocess.TimeoutExpired:
+            rec.skip('cli_timeout_inconclusive')
+            return
+        out = p.stdout.decode('utf-8', 'replace')
+        det[mode] = next((l.strip() for l in out.split('\n') if 'ncoding' in l and 'etect' in l), None)
+        d = os.path.join(root, 'Rules', 'A ' + mode)
+        trees[mode] = tree(d) if os.path.exists(os.path.join(d, 'config.ini')) else None
+    rec.case({'encoding': enc, 'passwords': len(pws), 'detected': det}, True, ['cli_autodetected_encoding', 'enc_' + enc], key=[case, 'auto'])
+    if (trees['plain'] is None) != (trees['hex'] is None):
+        raise Violation('completion_differs', f'trainer.py without -e completes for one spelling only: plain {trees["plain"] is not None}, hex {trees["hex"] is not None}; detected: {det}', case)
+    if trees['plain'] is None:
+        rec.skip('trainer_did_not_complete')
+        return
+    diff = sorted(k for k in set(trees['plain']) | set(trees['hex']) if trees['plain'].get(k) != trees['hex'].get(k))
+    if diff:
+        raise Violation('ruleset_differs', f'trainer.py without -e: the $HEX[] spelling of a {enc} list trains another ruleset than the plain list: {diff[:6]}; '
+                        f'encodings reported: {det}', case)
+
+
+@st.composite
+def autodetect_cases(draw):
+    from .. import cli
+    ws = draw(st.lists(st.sampled_from(RUSSIAN), min_size=24, max_size=28, unique=True))
+    words = [[w, draw(st.sampled_from(['', '', '1', '12', '2019', '!']))] for w in ws] * 2
+    return {'encoding': draw(st.sampled_from(['cp1251', 'koi8-r'])), 'words': words, 'context': draw(cli.contexts(rule_names=False))}
+
+
+def run_autodetect(rec, seed, shard, nshards, tier):
+    n = {'quick': 2, 'thorough': 20}[tier]
+    core.hyp_run(rec, prop_autodetect, autodetect_cases(), n, seed, shrink=False)
+
+
 def run_meta_cli(rec, seed, shard, nshards, tier):
     from .. import cli
     n = {'quick': 3, 'thorough': 40}[tier]
@@ -437,4 +497,5 @@ PARTS = [
     Part('reader_vs_reference', run_reader, prop_reader, {'quick': 8, 'thorough': 16}),
     Part('renderings_train_same_ruleset', run_meta, prop_meta, {'quick': 8, 'thorough': 16}),
     Part('cli_renderings', run_meta_cli, prop_meta_cli, {'quick': 4, 'thorough': 8}),
+    Part('cli_autodetected_encoding', run_autodetect, prop_autodetect, {'quick': 2, 'thorough': 8}),
 ]
